@@ -105,7 +105,7 @@ func (s *receiveLog) missingSeqNumbers(skipLastN uint16, missingPacketSeqNums []
 	defer s.m.RUnlock()
 
 	until := s.end - skipLastN
-	if until-s.lastConsecutive >= rtpbuffer.Uint16SizeHalf {
+	if until-s.lastConsecutive > rtpbuffer.Uint16SizeHalf {
 		// until < s.lastConsecutive (counting for rollover)
 		return nil
 	}
